@@ -1,7 +1,9 @@
 ------------------------ MODULE Randomized_Trace ------------------------
 (* Trace validation for C09.  One event per (variant, weights, seed):
-     Gen  variant, W (weight classes), seed, sni, d1, d2 (reflection dumps of the spec generated twice from the same
-          ClientHelloID), h1, h2 (wire ClientHellos of two connections built from that ClientHelloID), err
+     Gen  variant, W (weight classes), seed, sni, alpn (Config.NextProtos; <<>> = nil), d1, d2 (reflection dumps of the
+          spec generated twice from the same ClientHelloID: src = "spec": two UTLSIdToSpec calls; src = "uconn" (non-empty
+          NextProtos, which only a connection passes to the generator): what each of the two connections applied),
+          h1, h2 (wire ClientHellos of two connections built from that ClientHelloID), err
    For every event TLC judges
      - reproducibility: d1 = d2 and NormHello(h1) = NormHello(h2) (equal modulo per-connection material),
      - the wire hello is the one the dump describes (reference encoders of TLSWire),
@@ -33,12 +35,14 @@ Abs(sp) ==
 H2 == <<104, 50>>
 HTTP11 == <<104, 116, 116, 112, 47, 49, 46, 49>>
 \* parts of the generated spec that no coin decides (u_parrots.go:3053, 3083, 3120, 3144) and well-formedness of the lists
-DetailOK(sp) ==
+\* nextProtos is an input of the generator: it only supplies the ALPN protocol list (default h2, http/1.1: u_parrots.go:3080-3086);
+\* whether ALPN / ALPS are present is decided by the variant and the coins alone
+DetailOK(sp, alpnIn) ==
   /\ NoDupSeq(sp.suites) /\ \A i \in DOMAIN sp.suites : ClassOf(sp.suites[i]) # "unknown"
   /\ NoDupSeq([i \in DOMAIN sp.exts |-> sp.exts[i].kind])
   /\ NoDupSeq(DField(sp, "SignatureAlgorithmsExtension", "SupportedSignatureAlgorithms"))
   /\ DField(sp, "SupportedPointsExtension", "SupportedPoints") = <<0>>
-  /\ HasExt(sp, "ALPNExtension") => TheExt(sp, "ALPNExtension").f.AlpnProtocols = <<H2, HTTP11>>
+  /\ HasExt(sp, "ALPNExtension") => TheExt(sp, "ALPNExtension").f.AlpnProtocols = (IF alpnIn = <<>> THEN <<H2, HTTP11>> ELSE alpnIn)
   /\ HasExt(sp, "ApplicationSettingsExtension") => TheExt(sp, "ApplicationSettingsExtension").f.SupportedProtocols = <<H2>>
   /\ HasExt(sp, "PSKKeyExchangeModesExtension") => TheExt(sp, "PSKKeyExchangeModesExtension").f.Modes = <<1>>
   /\ HasExt(sp, "UtlsPaddingExtension") => TheExt(sp, "UtlsPaddingExtension").style = "boring"
@@ -77,11 +81,18 @@ HelloMatchesDump(raw, sp, sni) ==
   /\ h.comp = (IF sp.comp = <<>> THEN <<0>> ELSE sp.comp)
   /\ Align(h.exts, 1, sp.exts, 1, [sni |-> sni])
 
+\* dumps taken from connections carry the key-share public values the connection generated: equal modulo those
+NormD(sp) == [sp EXCEPT !.exts = [i \in DOMAIN sp.exts |->
+                 IF sp.exts[i].kind = "KeyShareExtension"
+                 THEN LET ks == sp.exts[i].f.KeyShares
+                      IN [sp.exts[i] EXCEPT !.f.KeyShares = [k \in DOMAIN ks |-> [Group |-> ks[k].Group, n |-> Len(ks[k].Data)]]]
+                 ELSE sp.exts[i]]]
+
 \* ---------------------------------------------------------------- static judgements of one event
 StaticFails(ev) ==
   IF ev.err # "" THEN {"error"} ELSE
   LET o == Abs(ev.d1) IN
-     (IF ev.d1 = ev.d2 THEN {} ELSE {"dump-not-reproducible"})
+     (IF NormD(ev.d1) = NormD(ev.d2) THEN {} ELSE {"dump-not-reproducible"})
   \cup (IF NormHello(ev.h1).ok /\ NormHello(ev.h1) = NormHello(ev.h2) THEN {} ELSE {"hello-not-reproducible"})
   \cup (IF HelloMatchesDump(ev.h1, ev.d1, ev.sni) /\ HelloMatchesDump(ev.h2, ev.d2, ev.sni) THEN {} ELSE {"hello-not-as-dumped"})
   \cup {n \in ConsistencyNames : ~Consistent(n, o)}
@@ -102,7 +113,7 @@ Begin == /\ pc = "idle" /\ l <= Len(Trace)
                     /\ UNCHANGED l
             /\ UNCHANGED taken
 Step == pc \notin {"idle", "done"} /\ GenNext /\ taken' = taken \cup {pc} /\ UNCHANGED <<l, rej>>
-Member == Offer(fv) = Abs(Trace[l].d1) /\ DetailOK(Trace[l].d1)
+Member == Offer(fv) = Abs(Trace[l].d1) /\ DetailOK(Trace[l].d1, Trace[l].alpn)
 Finish == /\ pc = "done"
           /\ rej' = IF Member THEN rej ELSE Append(rej, <<l, {"not-a-model-output"}, [pc |-> pc]>>)
           /\ l' = l + 1 /\ pc' = "idle" /\ UNCHANGED <<W, variant, fv, obs, taken>>
